@@ -80,13 +80,29 @@ def structural_problem(t):
 
 class Snapshot(object):
     """Dense value plus shape metadata of one TT at one instant."""
-    __slots__ = ("dense", "meta", "norm", "finite")
+    __slots__ = ("dense", "meta", "norm", "finite", "scale")
 
     def __init__(self, t):
         self.meta = meta(t)
         self.dense = dense(t)
         self.finite = bool(np.all(np.isfinite(self.dense)))
         self.norm = float(_norm(self.dense.ravel())) if self.finite else float("nan")
+        # natural magnitude of rounding errors: the product of the core norms (>= ||T||_F).  A tensor whose value is
+        # (nearly) zero by cancellation between O(1) cores is only defined up to ~eps * scale.
+        sc = 1.0
+        for c in t.cores:
+            sc *= float(_norm(np.asarray(c).ravel()))
+        self.scale = sc if np.isfinite(sc) else self.norm
+
+    def floor(self, eps=1e-12):
+        return eps * max(self.scale, self.norm)
+
+    def differs(self, dense_after, tol):
+        """||after - self|| beyond tol*||self|| + eps*scale ?  Returns (bool, error)."""
+        if dense_after.shape != self.dense.shape or not np.all(np.isfinite(dense_after)):
+            return True, float("inf")
+        err = float(_norm((dense_after - self.dense).ravel()))
+        return (not (err <= tol * self.norm + self.floor())), err
 
 
 def rel_diff(a, b):
